@@ -484,6 +484,7 @@ def units(tier):
     gmp_units(U)
     gmp_element_units(U)
     gmp_cohomology_units(U)
+    gmp_inverse_units(U)
     return U
 
 
@@ -1207,6 +1208,76 @@ __CPROVER_assigns(g_mi_arg, g_mi_calls)
                   inputs=["in_x", "in_qs", P], replay=mk_replay_native("mf_coh"), runs=[Run(backend="sat", timeout=300)],
                   harness=H(f"  long in_x = nondet_long(), in_qs = nondet_long(); {P} = nondet_long(); g_mi_calls = 0;", "inverse(in_x, in_qs);"),
                   desc="persistent_cohomology::Multi_field::inverse(x, QS) (GMP): with g = gcd(x, QS): (0, 1) when g == QS; otherwise T = QS / g is returned as the invertibility sub-product and the value is invert(x, T) times the partial identity OF T, reduced modulo the whole product"))
+
+def gmp_inverse_units(U):
+    """Multi_field_operators (GMP): get_partial_multiplicative_identity, get_partial_inverse, get_inverse."""
+    path = F + "Multi_field_operators.h"
+    P = "productOfAllCharacteristics_"
+    NPR = 3
+    G = (f"typedef mpz_class Element; typedef mpz_class Characteristic;\n#define NPR {NPR}\nCharacteristic {P}; Element multiplicativeID_; unsigned primes_[NPR]; unsigned primes_n; Element partials_[NPR];\n"
+         "typedef struct { Element first; Characteristic second; } vp_pair;\n"
+         "Element g_pmi; Characteristic g_pmi_arg; unsigned g_pmi_calls; vp_pair g_pinv; Element g_pinv_e; Characteristic g_pinv_q; unsigned g_pinv_calls;\n"
+         "long nondet_long(void); unsigned nondet_uint(void);\n"
+         "Element get_partial_multiplicative_identity(Characteristic productOfCharacteristics); void get_value_inplace(Element* e); vp_pair get_partial_inverse(Element e, Characteristic productOfCharacteristics);\n")
+    GS = [(r"(\(\*\w+\)|\b\w+(?:\.\w+)?)\.get_mpz_t\(\)", r"\1", 0), (r"\bmpz_mod\(", "VP_MPZ_MOD(", 0), (r"\bmpz_gcd\(", "VP_MPZ_GCD(", 0), (r"\bmpz_invert\(", "VP_MPZ_INVERT(", 0),
+          (r"\((\w+) % (\w+\[\w+\])\)", r"(vp_mpz_tdiv_r(\1, \2))", 0), (r"\b(\w+) / (\w+)\b", r"vp_mpz_tdiv_q(\1, \2)", 0),
+          (r"(\b\w+(?:\.\w+)?) \*= ([^;]+);", r"\1 = vp_mpz_mul(\1, \2);", 0), (r"Element (\w+)\((\w+)\);", r"Element \1 = \2;", 0),
+          (r"primes_\.size\(\)", "primes_n", 0), (r"get_multiplicative_identity\(\)", "multiplicativeID_", 0),
+          (r"std::pair<Element, Characteristic> (\w+)\(([^;]*)\);", r"vp_pair \1 = {\2};", 0), (r"return \{([^;]*)\};", r"return (vp_pair){\1};", 0),
+          (r"get_value_inplace\((\w+(?:\.\w+)?)\);", r"get_value_inplace(&\1);", 0),
+          (r"get_partial_inverse\((\w+), (\w+)\)\.first", r"get_partial_inverse(\1, \2).first", 0)]
+    PRE = f"{P} >= 2 && {P} < BNDP"
+    stub_gvi = Fn(path, r"void get_value_inplace\(Element& e\) const", "get_value_inplace", f"""
+__CPROVER_requires({PRE} && *e > -VP_LMAX)
+__CPROVER_ensures(*e == NORM(__CPROVER_old(*e), {P}))
+__CPROVER_assigns(*e)
+""", subs=GS)
+    Gmi = G + f"""
+static Element x_sum(Characteristic Q) {{ Element s = 0; for (unsigned k = 0; k < NPR; k++) if (k < primes_n && x_tdiv_r(Q, primes_[k]) == 0) s = s + partials_[k]; return s; }}
+static bool tab_ok(void) {{ bool ok = primes_n <= NPR; for (unsigned k = 0; k < NPR; k++) ok = ok && primes_[k] >= 2 && partials_[k] >= 0 && partials_[k] < {P}; return ok; }}
+"""
+    f_pmi = Fn(path, r"Element get_partial_multiplicative_identity\(const Characteristic& productOfCharacteristics\) const", "get_partial_multiplicative_identity", f"""
+__CPROVER_requires({PRE} && tab_ok() && productOfCharacteristics >= 0 && productOfCharacteristics <= {P})
+__CPROVER_ensures(__CPROVER_return_value == (productOfCharacteristics == 0 ? multiplicativeID_ : NORM(x_sum(productOfCharacteristics), {P})))
+__CPROVER_assigns()
+""", subs=GS, canary=(r"partials_\[idx\]", "partials_[0]"))
+    U.append(Unit("mf_ops.get_partial_multiplicative_identity", "C10", [stub_gvi, f_pmi], enforce="get_partial_multiplicative_identity", replace=["get_value_inplace"],
+                  includes=["c10_gmp_glue.h"], globals_=Gmi, unwind=NPR + 2, route="B", bound=f"ranges with at most {NPR} primes; primes, idempotents and Q symbolic",
+                  inputs=["in_q", P, "primes_n"], replay=mk_replay_native("mf_ops"), runs=[Run(backend="sat", timeout=300)],
+                  harness=H(f"  long in_q = nondet_long(); {P} = nondet_long(); primes_n = nondet_uint();\n  for (int k = 0; k < NPR; k++) {{ primes_[k] = nondet_uint(); partials_[k] = nondet_long(); }}", "get_partial_multiplicative_identity(in_q);"),
+                  desc="Multi_field_operators::get_partial_multiplicative_identity (GMP): the canonical representative of the sum of the idempotents of the primes dividing Q (the multiplicative identity itself for Q == 0)"))
+    stub_gvi2 = Fn(path, r"void get_value_inplace\(Element& e\) const", "get_value_inplace", stub_gvi.contract, subs=GS)
+    stub_pmi = Fn(path, r"Element get_partial_multiplicative_identity\(const Characteristic& productOfCharacteristics\) const", "get_partial_multiplicative_identity", f"""
+__CPROVER_ensures(__CPROVER_return_value == g_pmi && g_pmi_arg == productOfCharacteristics && g_pmi_calls == __CPROVER_old(g_pmi_calls) + 1)
+__CPROVER_assigns(g_pmi_arg, g_pmi_calls)
+""", subs=GS)
+    GCD, INV = "__CPROVER_uninterpreted_mpz_gcd(e, productOfCharacteristics)", "__CPROVER_uninterpreted_mpz_invert"
+    QT = f"TDIVQ(productOfCharacteristics, {GCD})"
+    f_pinv = Fn(path, r"std::pair<Element, Characteristic> get_partial_inverse\(\s*const Element& e, const Characteristic& productOfCharacteristics\) const", "get_partial_inverse", f"""
+__CPROVER_requires({PRE} && e >= 0 && e < {P} && productOfCharacteristics >= 1 && productOfCharacteristics <= {P} && g_pmi_calls == 0 && g_pmi >= 0 && g_pmi < {P})
+__CPROVER_requires(VP_MUL(g_pmi, {INV}(e, {QT})) > -VP_LMAX)
+__CPROVER_ensures({GCD} != productOfCharacteristics || (__CPROVER_return_value.first == 0 && __CPROVER_return_value.second == multiplicativeID_ && g_pmi_calls == 0))
+__CPROVER_ensures({GCD} == productOfCharacteristics || (__CPROVER_return_value.second == {QT} && g_pmi_calls == 1 && g_pmi_arg == {QT}))
+__CPROVER_ensures({GCD} == productOfCharacteristics || __CPROVER_return_value.first == NORM(VP_MUL(g_pmi, {INV}(e, {QT})), {P}))
+__CPROVER_assigns(g_pmi_arg, g_pmi_calls)
+""", sig_subs=[(r"std::pair<Element, Characteristic>", "vp_pair")], subs=GS, canary=(r"QR == productOfCharacteristics", "QR != productOfCharacteristics"))
+    U.append(Unit("mf_ops.get_partial_inverse", "C10", [stub_gvi2, stub_pmi, f_pinv], enforce="get_partial_inverse", replace=["get_value_inplace", "get_partial_multiplicative_identity"],
+                  includes=["c10_gmp_glue.h"], globals_=G, inputs=["in_e", "in_q", P], replay=mk_replay_native("mf_ops"), runs=[Run(backend="sat", timeout=300)],
+                  harness=H(f"  long in_e = nondet_long(), in_q = nondet_long(); {P} = nondet_long(); g_pmi_calls = 0;", "get_partial_inverse(in_e, in_q);"),
+                  desc="Multi_field_operators::get_partial_inverse(e, Q) (GMP): with g = gcd(e, Q): (0, 1) when g == Q; otherwise T = Q / g is returned as the invertibility sub-product and the value is the canonical representative of invert(e, T) times the partial identity OF T"))
+    stub_pinv = Fn(path, r"std::pair<Element, Characteristic> get_partial_inverse\(\s*const Element& e, const Characteristic& productOfCharacteristics\) const", "get_partial_inverse", """
+__CPROVER_ensures(__CPROVER_return_value.first == g_pinv.first && __CPROVER_return_value.second == g_pinv.second && g_pinv_e == e && g_pinv_q == productOfCharacteristics && g_pinv_calls == __CPROVER_old(g_pinv_calls) + 1)
+__CPROVER_assigns(g_pinv_e, g_pinv_q, g_pinv_calls)
+""", sig_subs=[(r"std::pair<Element, Characteristic>", "vp_pair")], subs=GS)
+    f_inv = Fn(path, r"Element get_inverse\(const Element& e\) const", "get_inverse", f"""
+__CPROVER_requires(g_pinv_calls == 0)
+__CPROVER_ensures(__CPROVER_return_value == g_pinv.first && g_pinv_calls == 1 && g_pinv_e == e && g_pinv_q == {P})
+__CPROVER_assigns(g_pinv_e, g_pinv_q, g_pinv_calls)
+""", subs=GS, canary=(r"\.first", ".second"))
+    U.append(Unit("mf_ops.get_inverse", "C10", [stub_pinv, f_inv], enforce="get_inverse", replace=["get_partial_inverse"], includes=["c10_gmp_glue.h"], globals_=G,
+                  inputs=["in_e", P], replay=mk_replay_native("mf_ops"), runs=[Run(backend="sat", timeout=300)],
+                  harness=H(f"  long in_e = nondet_long(); {P} = nondet_long(); g_pinv_calls = 0;", "get_inverse(in_e);"),
+                  desc="Multi_field_operators::get_inverse (GMP): the value of the partial inverse with respect to the product of ALL characteristics"))
 
 TRUSTED = [
     "vp/prelude.h: spec functions RES_U/ADDMOD/SUBMOD/MATHMOD64 and the R11 stand-ins (VP_SWAP_U, vp_gcd_u)",
